@@ -79,10 +79,15 @@ def run_schedule(period, P, sched, offset, release, res):
         for k, b in enumerate(sched, start=1):
             if b:
                 hs.stepTimingAsync(b)
+            if release == "with" and k in (1, 3):
+                # the with-block is entered some time after the object was created (and entered again, nested, later on):
+                # the grid stays anchored at the creation time
+                if d.__enter__() is not d:
+                    out.append(("enter-returns-other-object", f"__enter__() before wait #{k}"))
             grid = t0 + k * P
             alarm = hs.getNextNotifierTimeout()
             if alarm != grid:
-                out.append((f"alarm-off-grid:{'after-overrun' if any(x > P for x in sched[:k-1]) else 'no-overrun'}", f"before wait #{k}: alarm at {alarm - t0} us after t0, expected {k * P} (bodies {sched[:k]})"))
+                out.append((f"alarm-off-grid:{'after-overrun' if any(x > P for x in sched[:k-1]) else 'no-overrun'}", f"before wait #{k}: alarm at {alarm - t0} us after t0, expected {k * P} (bodies {sched[:k]}{', with-block entered after the first body' if release == 'with' else ''})"))
                 return out  # the schedule is off the grid from here on; do not drive it further
             t_call = now()
             rig.cmd.put(("wait",))
@@ -472,7 +477,7 @@ def main(tier, seed):
         "worker thread, the harness reads the programmed alarm from the HAL (independent of the object's fields) before each wait and the FPGA time at "
         "which wait() returned. Oracle: alarm before wait #k == t0 + k*P; return time == max(t0 + k*P, time of the call); a wait that must block is "
         "given the chance to return early before the clock moves and again 1 us before the grid point; after free() / leaving the with-block the HAL "
-        "notifier count is back and wait() returns without the clock moving. In addition: long uninterrupted runs (hundreds to thousands of iterations with a "
+        "notifier count is back and wait() returns without the clock moving; in the with-block runs the block is entered only after the first loop body (and once more, nested, before the third wait). In addition: long uninterrupted runs (hundreds to thousands of iterations with a "
         "constant short body, every alarm and return instant checked to the microsecond) and two objects whose lifetimes touch (the first released, freed again, waited on, "
         "garbage-collected or released after the second was created: the second object's grid and the HAL notifier count must be undisturbed). states = (period, body duration, position); transitions = waits executed."
     )
